@@ -422,7 +422,8 @@ structure PieceOk (f : MeshFields) (d : Nat) (cnames pnames : List String) (rsC 
   cfWf : ∀ cf ∈ f.cellFields,
     cf.values.data.length = (f.mesh.cellsOf cf.ctype).length * cf.values.rowSize ∧
     cf.values.rowSize = rsC cf.name
-  cfComplete : ∀ ct, f.mesh.cellsOf ct ≠ [] → ∀ n ∈ cnames, (findCellField f.cellFields n ct).isSome = true
+  cfCompleteB : ∀ ct ∈ f.mesh.cellTypes, f.mesh.cellsOf ct ≠ [] →
+    ∀ n ∈ cnames, (findCellField f.cellFields n ct).isSome = true
   pfWf : ∀ pf ∈ f.pointFields,
     pf.values.data.length = f.mesh.points.length * pf.values.rowSize ∧ pf.values.rowSize = rsP pf.name
   pfComplete : ∀ n ∈ pnames, (f.pointFields.find? (·.name == n)).isSome = true
@@ -479,6 +480,11 @@ theorem findCellField_some (cfs : List CellField) (n ct : String) (a : CellField
   have h2 := List.find?_some h
   simp only [Bool.and_eq_true, beq_iff_eq] at h2
   exact ⟨h1, h2.1, h2.2⟩
+
+theorem PieceOk.cfComplete {f : MeshFields} {d : Nat} {cnames pnames : List String} {rsC rsP : String → Nat}
+    (h : PieceOk f d cnames pnames rsC rsP) (ct : String) (hne : f.mesh.cellsOf ct ≠ []) :
+    ∀ n ∈ cnames, (findCellField f.cellFields n ct).isSome = true :=
+  h.cfCompleteB ct (mem_types_of_rows _ ct (by simpa [cellsOf_eq_rowsOfType] using hne)) hne
 
 /-- cell data of the merged mesh on a cell that came from the earlier mesh / the later piece -/
 theorem cellValue_step (srt : List (List Int) → List Nat) (f1 f2 : MeshFields) (d : Nat)
@@ -891,7 +897,7 @@ theorem stepResult_ok (srt : List (List Int) → List Nat) (f1 f2 : MeshFields) 
         rw [hcr]
         simp only [NdArr.concat, List.length_append, hwa.1, hwb.1, hrs, Nat.add_mul]
   · -- every named cell field is present wherever the merged mesh has cells
-    intro ct hne n hn
+    intro ct _ hne n hn
     have hct : ct ∈ (stepResult srt f1 f2).mesh.cells.map (·.1) :=
       mem_types_of_rows _ ct (by simpa [cellsOf_eq_rowsOfType] using hne)
     have hfind : findCellField (stepResult srt f1 f2).cellFields n ct =
